@@ -40,11 +40,11 @@ pub fn exec(t: &[&str]) -> Option<String> {
         }
         ["c13_pub_of", a] => match sk(a) { Some(a) => hex(&PublicKey::from_private_key(&a).to_bytes()), None => e() },
         ["c13_add", a, b] => match (pk(a), pk(b)) {
-            (Some(a), Some(b)) => { let r = a + b; let r2 = &a + &b; if r != r2 { "MISMATCH add forms".into() } else { hex(&r.to_bytes()) } }
+            (Some(a), Some(b)) => { let r = a + b; let r2 = &a + &b; let r3 = a + &b; let r4 = &a + b; if r != r2 || r != r3 || r != r4 { format!("MISMATCH add forms: a+b={} &a+&b={} a+&b={} &a+b={}", r, r2, r3, r4) } else { hex(&r.to_bytes()) } }
             _ => e(),
         },
         ["c13_sub", a, b] => match (pk(a), pk(b)) {
-            (Some(a), Some(b)) => { let r = a - b; let r2 = &a - &b; if r != r2 { "MISMATCH sub forms".into() } else { hex(&r.to_bytes()) } }
+            (Some(a), Some(b)) => { let r = a - b; let r2 = &a - &b; let r3 = a - &b; let r4 = &a - b; if r != r2 || r != r3 || r != r4 { format!("MISMATCH sub forms: a-b={} &a-&b={} a-&b={} &a-b={}", r, r2, r3, r4) } else { hex(&r.to_bytes()) } }
             _ => e(),
         },
         ["c13_smul", a, b] => match (sk(a), pk(b)) {
